@@ -296,6 +296,29 @@ fn oracle_card(ctx: &mut Ctx, rng: &mut Rng, k: usize, d: u8, h: u8, w: u8, max_
 
 pub fn run(ctx: &mut Ctx) {
     let quick = ctx.quick();
+    // the public size function: digit_count * height * width for every triple of u8 values (all 2^24 in thorough),
+    // and from_data accepts exactly that many bytes
+    {
+        let mut r2 = ctx.rng("size");
+        let n = if quick { 200_000u64 } else { 1u64 << 24 };
+        let mut bad = 0u64;
+        for k in 0..n {
+            let (d, h, w) = if quick { (r2.below(256) as u8, r2.below(256) as u8, r2.below(256) as u8) } else { ((k >> 16) as u8, (k >> 8) as u8, k as u8) };
+            let got = catch(|| MatrixCard::get_matrix_card_size(d, h, w));
+            if got != Some(d as usize * h as usize * w as usize) {
+                bad += 1;
+                if bad < 5 { ctx.fail("card_size", format!("{{\"what\":\"get_matrix_card_size is not digit_count * height * width\",\"digit_count\":{},\"height\":{},\"width\":{},\"got\":{:?}}}", d, h, w, got)); }
+            }
+        }
+        ctx.oracle_runs += n;
+        for (d, h, w) in [(1u8, 1u8, 1u8), (2, 10, 8), (3, 4, 5), (0, 3, 3), (1, 0, 7)] {
+            let size = d as usize * h as usize * w as usize;
+            for len in [size, size + 1, size.saturating_sub(1)] {
+                let r = catch(|| MatrixCard::from_data(d, h, w, vec![0u8; len]).is_some());
+                if r != Some(len == size) { ctx.fail("from_data_size", format!("{{\"what\":\"from_data accepts a buffer of the wrong size or refuses the right one\",\"digit_count\":{},\"height\":{},\"width\":{},\"len\":{}}}", d, h, w, len)); }
+            }
+        }
+    }
     let mut rng = ctx.rng("corr");
     let small = geoms_small();
     let beyond = geoms_beyond();
